@@ -35,13 +35,9 @@ pub enum GiantKind {
 }
 
 fn giant_check<T: Subject>(len: usize, ones: &[usize], kind: &GiantKind) -> Result<bool, Violation> {
-    let words = len / 64 + 1;
-    // skip (not a violation) where half a gigabyte of address space cannot be reserved
-    let mut probe: Vec<u64> = Vec::new();
-    if probe.try_reserve_exact(words).is_err() {
+    if !super::giant::giant_available(len) {
         return Ok(false);
     }
-    drop(probe);
     let bit_at = |i: usize| ones.contains(&i);
     let window = |s: usize, e: usize| Bits((s..e).map(bit_at).collect());
     let r: Result<Result<(), Violation>, String> = catch(|| {
